@@ -11,6 +11,8 @@
   Models: SH.Model.Agg (ItemValue/ItemCounter.Merge, AddValueCounterHost, tsValues.merge), SH.Model.Unique (ChUnique).
   Part 1: values and hosts, every binary merge tree with every stream of random draws (`Tree`).
   Part 2: API rows (`TsTree`).
+  Part 8: the agent-side apply glue (ApplyValues/ApplyValuesLegacy = Merge with one contribution) and API rows with any subset of selected columns.
+  Part 7: `table_refines` for every program (inserts, Merge, MarshallAppend+MergeRead) and order/grouping independence at table level.
   Part 6: `table_refines`: rehash/resize restore well-formedness; the real table realises the canonical sketch (insert programs).
   Part 5: MultiValue.ApplyUnique (event-level entry) is a Merge with one contribution plus a stream of inserts.
   Part 4: the concrete open-addressing table (SH.Model.UniqueTable) refines the set model of Part 3 (`table_refines`, partial).
@@ -1273,9 +1275,9 @@ theorem tsUnique_good (P : Params) (hP : PWF P) (v r : Ts) (U1 U2 W : Finset ℕ
     `WF` is decided by the executable `wfb` (`wfb_decides_WF`) which the driver evaluates after every replayed op.
     Hypotheses the loops need (and the code maintains: itemsCount ≤ maxFill = half the table before every insert, table
     size ≥ 4): one free slot for rehash/resize, new size ≥ 2 × old size for resize.
-  STILL PARTIAL: the program-level `table_refines` is proved for insert programs; Merge and MarshallAppend+MergeRead at
-    table level are covered only step-wise (their loops are folds of the insertHash step proved here, preceded by the
-    rehash / resize proved here) — the fold over rhs.buf in slot order has not been assembled into one program theorem.
+  Part 7 lifts this to EVERY program (`table_refines_programs`, `table_canonical`, `table_order_independent`): inserts,
+    Merge (zero item + fold of the insertHash step over rhs.buf in slot order, after the adoption rehash) and
+    MarshallAppend + MergeRead (adoption rehash, resize, fold over the wire list; UmMarshall for the zero-value receiver).
   The witness below (`ResizeV.oldOnly`, seeded change C03-2) shows the real loop bound is necessary: with `i < oldSize`
     every value-level theorem still holds, but a wrapped value is stranded, `WF` fails, and the next insert of that value
     is counted twice.
@@ -1541,6 +1543,681 @@ set_option maxRecDepth 20000 in
 example : PWF toyT ∧ 2 ≤ toyT.initDeg ∧ (∀ x ∈ [28, 12, 4, 33, 7, 52, 9, 61, 17], x < 2 ^ toyT.bits) ∧
     (tabOf .full [28, 12, 4, 33, 7, 52, 9, 61, 17]).k = 1 ∧ (tabOf .full [28, 12, 4, 33, 7, 52, 9, 61, 17]).cnt = 4 := by
   refine ⟨⟨by decide, by decide⟩, by decide, by decide, by decide, by decide⟩
+
+
+/-! ## Part 7 — `table_refines` for every program: inserts, Merge, MarshallAppend + MergeRead -/
+
+theorem tinv_mono (P : Params) (t : Tb) (s : Sk) (U W W' : Finset ℕ) (h : TInv P t s U W) (hs : W ⊆ W')
+    (hb : ∀ x ∈ W', x < 2 ^ P.bits) : TInv P t s U W' :=
+  { wf := h.wf, ref := h.ref, good := good_mono P s U W W' h.good hs hb, sd2 := h.sd2 }
+
+/-- tvals of the table = what the set model holds = the seen values divisible by 2^skipDegree -/
+theorem tinv_tvals (P : Params) (t : Tb) (s : Sk) (U W : Finset ℕ) (h : TInv P t s U W) : tvals t = fil t.k U := by
+  rw [← h.ref.vals, ← h.ref.k]; exact h.good.items
+
+/-- adoption of a larger skipDegree (`skipDegree = k'; rehash()`), table and set model together -/
+theorem tinv_adopt (P : Params) (t : Tb) (s : Sk) (U W : Finset ℕ) (h : TInv P t s U W) (k' : Nat)
+    (hm : ∀ j < k', limit P < (fil j W).card) :
+    TInv P (if t.k < k' then UTable.rehash P { t with k := k' } else t) (Unique.adopt P s k') U W ∧
+    k' ≤ (Unique.adopt P s k').k := by
+  obtain ⟨g, hk⟩ := adopt_good P s U W k' h.good hm
+  refine ⟨?_, hk⟩
+  unfold Unique.adopt at g ⊢
+  rw [h.ref.k] at g ⊢
+  by_cases c : t.k < k'
+  · rw [if_pos c] at g ⊢; rw [if_pos c]
+    have hroom := tinv_room P t s U W h
+    obtain ⟨e0, he, h0⟩ := room_of_len t h.wf.shape (by omega)
+    exact { wf := rehash_wf P t h.wf k' e0 he h0,
+            ref := (rehash_refines P t s (wf_tidy P t h.wf) h.ref k').2,
+            good := g, sd2 := h.sd2 }
+  · rw [if_neg c] at g ⊢; rw [if_neg c]; exact { wf := h.wf, ref := h.ref, good := g, sd2 := h.sd2 }
+
+theorem tinv_enlarge (P : Params) (t : Tb) (s : Sk) (U V W : Finset ℕ) (h : TInv P t s U W) (hV : V ⊆ W)
+    (hbad : ∀ x ∈ V, x % 2 ^ s.k ≠ 0) : TInv P t s (U ∪ V) W :=
+  { wf := h.wf, ref := h.ref, good := enlarge_good P s U V W h.good hV hbad, sd2 := h.sd2 }
+
+/-- the loop of Merge over rhs.buf: empty slots are skipped, every other slot is one insertHash step -/
+theorem foldl_mergeSlot (P : Params) : ∀ (l : List Nat) (c : Tb),
+    l.foldl (UTable.mergeSlot .full P) c = (l.filter nz).foldl (UTable.insertHash .full P) c := by
+  intro l
+  induction l with
+  | nil => intro c; rfl
+  | cons x l ih =>
+    intro c
+    simp only [List.foldl_cons, List.filter]
+    by_cases hx : x = 0
+    · have : nz x = false := by simp [nz, hx]
+      rw [this]
+      have e : UTable.mergeSlot .full P c x = c := by unfold UTable.mergeSlot; simp [hx]
+      rw [e]; exact ih c
+    · have : nz x = true := by simp [nz, hx]
+      rw [this]
+      simp only [List.foldl_cons]
+      have e : UTable.mergeSlot .full P c x = UTable.insertHash .full P c x := by
+        unfold UTable.mergeSlot UTable.insertHash
+        by_cases hg : good c.k x = true
+        · simp [hx, hg]
+        · simp [hg]
+      rw [e]; exact ih _
+
+/-- the zero-item step of Merge is an insertHash of the value 0 -/
+theorem zeroStep_eq (P : Params) (c : Tb) (hz : c.zero = false) :
+    UTable.shrinkIfNeed .full P { c with zero := true, cnt := c.cnt + 1 } = UTable.insertHash .full P c 0 := by
+  unfold UTable.insertHash UTable.insertImpl
+  simp [good, hz]
+
+theorem tvals_mem_zero (t : Tb) : (0 : ℕ) ∈ tvals t ↔ t.zero = true := by
+  unfold tvals
+  cases hz : t.zero <;> simp [zero_not_mem_items t]
+
+theorem ensure_alloc (P : Params) (t : Tb) (h : t.alloc = true) : UTable.ensure P t = t := by
+  unfold UTable.ensure; rw [if_pos h]
+
+/-- ChUnique.Merge on the real table: the receiver ends up well-formed, abstracted by a set-model state that represents
+    the union of what both sketches have seen -/
+theorem tinv_merge (P : Params) (ch rhs : Tb) (s1 s2 : Sk) (U1 U2 W : Finset ℕ) (h1 : TInv P ch s1 U1 W) (h2 : TInv P rhs s2 U2 W) :
+    ∃ s, TInv P (UTable.merge .full P ch rhs) s (U1 ∪ U2) W := by
+  have ha1 : ch.alloc = true := h1.ref.alloc ▸ h1.good.alloc
+  have ha2 : rhs.alloc = true := h2.ref.alloc ▸ h2.good.alloc
+  have hk2 : s2.k = rhs.k := h2.ref.k
+  have htv2 := tinv_tvals P rhs s2 U2 W h2
+  unfold UTable.merge
+  simp only [ha2, Bool.not_true, Bool.false_eq_true, if_false, ensure_alloc P ch ha1]
+  -- adoption
+  have hmin : ∀ j < rhs.k, limit P < (fil j W).card := by rw [← hk2]; exact h2.good.minimal
+  obtain ⟨c1, hk⟩ := tinv_adopt P ch s1 U1 W h1 rhs.k hmin
+  -- values of rhs that are not divisible by 2^rhs.k were never stored in it: add them to the "seen" set
+  let V := U2.filter (fun y => y % 2 ^ rhs.k ≠ 0)
+  have hV : V ⊆ W := fun x hx => h2.good.sub (Finset.mem_filter.mp hx).1
+  have hbad : ∀ x ∈ V, x % 2 ^ (Unique.adopt P s1 rhs.k).k ≠ 0 := by
+    intro x hx hmod
+    apply (Finset.mem_filter.mp hx).2
+    have hd : 2 ^ rhs.k ∣ 2 ^ (Unique.adopt P s1 rhs.k).k := Nat.pow_dvd_pow 2 hk
+    have h2' := Nat.mod_mod_of_dvd x hd
+    rw [hmod] at h2'; simpa using h2'.symm
+  have c2 := tinv_enlarge P _ _ U1 V W c1 hV hbad
+  -- the zero item
+  let tc1 := (if ch.k < rhs.k then UTable.rehash P { ch with k := rhs.k } else ch)
+  have hzero : ∃ s, TInv P (if (!tc1.zero && rhs.zero) = true then UTable.shrinkIfNeed .full P { tc1 with zero := true, cnt := tc1.cnt + 1 } else tc1)
+      s (if rhs.zero = true then insert 0 (U1 ∪ V) else U1 ∪ V) W := by
+    by_cases hrz : rhs.zero = true
+    · have h0W : (0 : ℕ) ∈ W := by
+        have : (0 : ℕ) ∈ tvals rhs := (tvals_mem_zero rhs).mpr hrz
+        rw [htv2] at this; exact h2.good.sub ((mem_fil _ _ _).mp this).1
+      rw [if_pos hrz]
+      by_cases hcz : tc1.zero = true
+      · have : (!tc1.zero && rhs.zero) = false := by simp [hcz]
+        rw [this]; simp only [Bool.false_eq_true, if_false]
+        have h0U : (0 : ℕ) ∈ U1 ∪ V := by
+          have : (0 : ℕ) ∈ tvals tc1 := (tvals_mem_zero tc1).mpr hcz
+          rw [tinv_tvals P tc1 _ _ W c2] at this; exact ((mem_fil _ _ _).mp this).1
+        rw [Finset.insert_eq_of_mem h0U]; exact ⟨_, c2⟩
+      · have hcz' : tc1.zero = false := by simpa using hcz
+        have : (!tc1.zero && rhs.zero) = true := by simp [hcz', hrz]
+        rw [this]; simp only [if_true]
+        rw [zeroStep_eq P tc1 hcz']
+        exact ⟨_, tinv_step P tc1 _ _ W c2 0 h0W⟩
+    · have hrz' : rhs.zero = false := by simpa using hrz
+      have : (!tc1.zero && rhs.zero) = false := by simp [hrz']
+      rw [this, if_neg hrz]; simp only [Bool.false_eq_true, if_false]
+      exact ⟨_, c2⟩
+  obtain ⟨s3, c3⟩ := hzero
+  -- the loop over rhs.buf
+  rw [foldl_mergeSlot]
+  have hin : ∀ x ∈ (slots rhs).filter nz, x ∈ W := by
+    intro x hx
+    have : x ∈ tvals rhs := by unfold tvals; exact Finset.mem_union_left _ (List.mem_toFinset.mpr hx)
+    rw [htv2] at this; exact h2.good.sub ((mem_fil _ _ _).mp this).1
+  have c4 := tinv_fold P ((slots rhs).filter nz) _ s3 _ W c3 hin
+  have e : (if rhs.zero = true then insert 0 (U1 ∪ V) else U1 ∪ V) ∪ ((slots rhs).filter nz).toFinset = U1 ∪ U2 := by
+    have hsplit : (if rhs.zero = true then insert 0 (U1 ∪ V) else U1 ∪ V) ∪ ((slots rhs).filter nz).toFinset = (U1 ∪ V) ∪ tvals rhs := by
+      unfold tvals items
+      ext y; by_cases hrz : rhs.zero = true <;> simp [hrz] <;> tauto
+    rw [hsplit, htv2]
+    ext y
+    simp only [Finset.mem_union, V, Finset.mem_filter, mem_fil]
+    by_cases hm : y % 2 ^ rhs.k = 0 <;> simp [hm]
+  rw [e] at c4; exact ⟨_, c4⟩
+
+
+/-! ### MarshallAppend + MergeRead on the real table -/
+
+theorem sdFor_gt (P : Params) (sd ic : Nat) (hlt : 2 ^ sd < ic) (hic : ic ≤ limit P) (hinit : P.initDeg ≤ P.maxDeg) :
+    sd + 1 ≤ sdFor .clamp P ic := by
+  have hl : ic < 2 ^ (Nat.log2 ic + 1) := Nat.lt_log2_self
+  have hsd : sd < Nat.log2 ic + 1 := (Nat.pow_lt_pow_iff_right (by omega : 1 < 2)).mp (by omega)
+  have hmax : sd < P.maxDeg - 1 := (Nat.pow_lt_pow_iff_right (by omega : 1 < 2)).mp (by unfold limit at hic; omega)
+  have h1 : 1 < ic := by have : 1 ≤ 2 ^ sd := Nat.one_le_two_pow; omega
+  simp only [sdFor, h1, if_true]; omega
+
+theorem tinv_limit (P : Params) (t : Tb) (s : Sk) (U W : Finset ℕ) (h : TInv P t s U W) : t.cnt ≤ limit P := by
+  have hpow : 2 ^ (s.sd - 1) ≤ 2 ^ (P.maxDeg - 1) := Nat.pow_le_pow_right (by omega) (by have := h.good.sdmax; omega)
+  have := h.good.fill; have := h.ref.cnt
+  simp only [Unique.maxFill, limit] at *; omega
+
+theorem tinv_resize (P : Params) (hP : PWF P) (t : Tb) (s : Sk) (U W : Finset ℕ) (h : TInv P t s U W) (ic : Nat) (hic : ic ≤ limit P) :
+    TInv P (if 2 ^ t.sd < ic then UTable.resize .full P t (sdFor .clamp P ic) else t) (readResize .clamp P s ic) U W := by
+  have g := readResize_good P hP s U W ic h.good hic
+  unfold readResize at g ⊢
+  rw [h.ref.sd] at g ⊢
+  by_cases c : 2 ^ t.sd < ic
+  · rw [if_pos c] at g ⊢; rw [if_pos c]
+    have hgt := sdFor_gt P t.sd ic c hic hP.2
+    have hroom := tinv_room P t s U W h
+    exact { wf := resize_wf P t h.wf _ hgt (by omega),
+            ref := (resize_refines .full P t s (wf_tidy P t h.wf) h.ref _ (by omega)).2,
+            good := g,
+            sd2 := by show 2 ≤ sdFor .clamp P ic; have := h.sd2; have := h.ref.sd; omega }
+  · rw [if_neg c] at g ⊢; rw [if_neg c]; exact { wf := h.wf, ref := h.ref, good := g, sd2 := h.sd2 }
+
+/-- the wire image written by MarshallAppend from a table -/
+theorem tmarshal_xs (t : Tb) (ha : t.alloc = true) :
+    (UTable.marshal t).k = t.k ∧ (UTable.marshal t).ic = t.cnt ∧
+    (UTable.marshal t).xs = (if t.zero then [0] else []) ++ items t ∧ (UTable.marshal t).xs.toFinset = tvals t := by
+  have e : (UTable.marshal t).xs = (if t.zero then [0] else []) ++ items t := by
+    unfold UTable.marshal items slots nz; rw [if_pos ha]
+  refine ⟨by unfold UTable.marshal; rw [if_pos ha], by unfold UTable.marshal; rw [if_pos ha], e, ?_⟩
+  rw [e]; unfold tvals
+  ext y; cases hz : t.zero <;> simp <;> tauto
+
+/-- MergeRead of a marshalled table into an allocated table -/
+theorem tinv_mergeRead (P : Params) (hP : PWF P) (ch rhs : Tb) (s1 s2 : Sk) (U1 U2 W : Finset ℕ)
+    (h1 : TInv P ch s1 U1 W) (h2 : TInv P rhs s2 U2 W) :
+    ∃ s, TInv P (UTable.mergeRead .full .clamp P ch (UTable.marshal rhs)) s (U1 ∪ U2) W := by
+  have ha1 : ch.alloc = true := h1.ref.alloc ▸ h1.good.alloc
+  have ha2 : rhs.alloc = true := h2.ref.alloc ▸ h2.good.alloc
+  have hk2 : s2.k = rhs.k := h2.ref.k
+  have htv2 := tinv_tvals P rhs s2 U2 W h2
+  obtain ⟨mk, mic, mxs, mfin⟩ := tmarshal_xs rhs ha2
+  unfold UTable.mergeRead
+  have hna : ¬ ((!ch.alloc) = true) := by simp [ha1]
+  rw [if_neg hna]
+  simp only []
+  rw [mk, mic]
+  have hmin : ∀ j < rhs.k, limit P < (fil j W).card := by rw [← hk2]; exact h2.good.minimal
+  obtain ⟨c1, hk⟩ := tinv_adopt P ch s1 U1 W h1 rhs.k hmin
+  let V := U2.filter (fun y => y % 2 ^ rhs.k ≠ 0)
+  have hV : V ⊆ W := fun x hx => h2.good.sub (Finset.mem_filter.mp hx).1
+  have hbad : ∀ x ∈ V, x % 2 ^ (Unique.adopt P s1 rhs.k).k ≠ 0 := by
+    intro x hx hmod
+    apply (Finset.mem_filter.mp hx).2
+    have hd : 2 ^ rhs.k ∣ 2 ^ (Unique.adopt P s1 rhs.k).k := Nat.pow_dvd_pow 2 hk
+    have h2' := Nat.mod_mod_of_dvd x hd
+    rw [hmod] at h2'; simpa using h2'.symm
+  have c2 := tinv_enlarge P _ _ U1 V W c1 hV hbad
+  have c3 := tinv_resize P hP _ _ _ W c2 rhs.cnt (tinv_limit P rhs s2 U2 W h2)
+  have hin : ∀ x ∈ (UTable.marshal rhs).xs, x ∈ W := by
+    intro x hx
+    have : x ∈ tvals rhs := by rw [← mfin]; exact List.mem_toFinset.mpr hx
+    rw [htv2] at this; exact h2.good.sub ((mem_fil _ _ _).mp this).1
+  have c4 := tinv_fold P (UTable.marshal rhs).xs _ _ _ W c3 hin
+  have e : U1 ∪ V ∪ (UTable.marshal rhs).xs.toFinset = U1 ∪ U2 := by
+    rw [mfin, htv2]
+    ext y
+    simp only [Finset.mem_union, V, Finset.mem_filter, mem_fil]
+    by_cases hm : y % 2 ^ rhs.k = 0 <;> simp [hm]
+  rw [e] at c4; exact ⟨_, c4⟩
+
+
+/-! ### UmMarshall (MergeRead into the zero value `ChUnique{}`) on the real table -/
+
+def setCnt (t : Tb) (c : Nat) : Tb := { t with cnt := c }
+
+theorem probe_absent (t : Tb) (x : Nat) (hab : ∀ i < UTable.size t, UTable.get t i ≠ x) :
+    ∀ (f p : Nat), p < UTable.size t → probe t x f p = probe t 0 f p := by
+  intro f
+  induction f with
+  | zero => intro p _; rfl
+  | succ f ih =>
+    intro p hp
+    simp only [probe]
+    have := hab p hp
+    by_cases h0 : UTable.get t p = 0
+    · simp [h0]
+    · simp [h0, this]; exact ih _ (next_lt t p)
+
+theorem probe_setCnt (t : Tb) (c x : Nat) : ∀ (f p : Nat), probe (setCnt t c) x f p = probe t x f p := by
+  intro f
+  induction f with
+  | zero => intro p; rfl
+  | succ f ih =>
+    intro p
+    simp only [probe]
+    have e1 : UTable.get (setCnt t c) p = UTable.get t p := rfl
+    have e2 : next (setCnt t c) p = next t p := rfl
+    rw [e1, e2, ih]
+
+/-- reading one value of a well-formed image = insertImpl, except that itemsCount was set in advance -/
+theorem readItem_eq (P : Params) (t : Tb) (c x : Nat) (hab : x ≠ 0 → ∀ i < UTable.size t, UTable.get t i ≠ x) :
+    readItem P (setCnt t c) x = setCnt (UTable.insertImpl P t x) c := by
+  unfold readItem UTable.insertImpl
+  by_cases hx : x = 0
+  · simp only [hx, if_true]
+    by_cases hz : t.zero = true
+    · simp [setCnt, hz]
+    · simp [setCnt, hz]
+  · simp only [hx, if_false]
+    unfold reinsertImpl
+    have e1 : probe (setCnt t c) 0 (UTable.size (setCnt t c)) (place P (setCnt t c) x) = probe t 0 (UTable.size t) (place P t x) :=
+      probe_setCnt t c 0 _ _
+    rw [e1, ← probe_absent t x (hab hx) _ _ (place_lt P t x)]
+    cases hp : probe t x (UTable.size t) (place P t x) with
+    | none => rfl
+    | some q =>
+      obtain ⟨d, _, hq, _, _⟩ := probe_some t x _ _ q (place_lt P t x) hp
+      have hqlt : q < UTable.size t := by rw [hq]; exact Nat.mod_lt _ (size_pos t)
+      simp only [hab hx q hqlt, if_false]
+      rfl
+
+theorem tvals_insertImpl (P : Params) (t : Tb) (w : WF P t) (x : Nat) (hroom : (items t).length + 1 ≤ UTable.size t) :
+    tvals (UTable.insertImpl P t x) = insert x (tvals t) ∧ (UTable.insertImpl P t x).k = t.k ∧
+    (UTable.insertImpl P t x).alloc = t.alloc := by
+  have hl : (slots t).length = UTable.size t := w.shape
+  by_cases hx0 : x = 0
+  · subst hx0
+    unfold UTable.insertImpl; rw [if_pos rfl]
+    by_cases hz : t.zero = true
+    · rw [if_pos hz]
+      refine ⟨?_, rfl, rfl⟩
+      rw [Finset.insert_eq_of_mem ((tvals_mem_zero t).mpr hz)]
+    · rw [if_neg hz]
+      refine ⟨?_, rfl, rfl⟩
+      have hz' : t.zero = false := by simpa using hz
+      unfold tvals
+      show (items t).toFinset ∪ {0} = _
+      rw [hz']; simp [Finset.union_comm]
+  · by_cases hst : x ∈ items t
+    · obtain ⟨_, i, hi, hget⟩ := (mem_items t x).mp hst
+      have e1 : UTable.insertImpl P t x = t := by
+        rw [← hget]; exact insertImpl_present P t w i (by rw [← hl]; exact hi) (by rw [hget]; exact hx0)
+      rw [e1]
+      refine ⟨?_, rfl, rfl⟩
+      rw [Finset.insert_eq_of_mem]; unfold tvals; exact Finset.mem_union_left _ (List.mem_toFinset.mpr hst)
+    · have hnew : ∀ i < UTable.size t, UTable.get t i ≠ x := by
+        intro i hi hc
+        exact hst ((mem_items t x).mpr ⟨hx0, i, by rw [hl]; exact hi, hc⟩)
+      obtain ⟨j, hj, hj0⟩ := room_of_len t w.shape hroom
+      obtain ⟨_, hperm, hdr, _⟩ := insertImpl_new P t w x hx0 hnew j hj hj0
+      refine ⟨?_, hdr.2.1, hdr.2.2.2⟩
+      unfold tvals
+      rw [hdr.2.2.1]
+      ext y
+      simp only [Finset.mem_union, List.mem_toFinset, Finset.mem_insert, hperm.mem_iff, List.mem_cons]
+      tauto
+
+theorem not_stored_of_not_tvals (t : Tb) (hs : Shape t) (x : Nat) (h : x ∉ tvals t) :
+    x ≠ 0 → ∀ i < UTable.size t, UTable.get t i ≠ x := by
+  intro hx i hi hc
+  apply h
+  unfold tvals
+  have hl : (slots t).length = UTable.size t := hs
+  exact Finset.mem_union_left _ (List.mem_toFinset.mpr ((mem_items t x).mpr ⟨hx, i, by rw [hl]; exact hi, hc⟩))
+
+/-- reading a whole image of distinct values -/
+theorem foldl_readItem (P : Params) (c : Nat) : ∀ (xs : List Nat) (t : Tb), WF P t → xs.Nodup → (∀ x ∈ xs, x ∉ tvals t) →
+    (items t).length + xs.length + 1 ≤ UTable.size t →
+    xs.foldl (readItem P) (setCnt t c) = setCnt (xs.foldl (UTable.insertImpl P) t) c ∧
+    WF P (xs.foldl (UTable.insertImpl P) t) ∧ tvals (xs.foldl (UTable.insertImpl P) t) = tvals t ∪ xs.toFinset ∧
+    (xs.foldl (UTable.insertImpl P) t).sd = t.sd ∧ (xs.foldl (UTable.insertImpl P) t).k = t.k ∧
+    (xs.foldl (UTable.insertImpl P) t).alloc = t.alloc := by
+  intro xs
+  induction xs with
+  | nil => intro t w _ _ _; simp; exact w
+  | cons x xs ih =>
+    intro t w hnd hab hroom
+    simp only [List.foldl_cons, List.length_cons] at hroom ⊢
+    obtain ⟨w', hlen, hsd⟩ := insertImpl_wf P t w x (by omega)
+    obtain ⟨htv, hk, hal⟩ := tvals_insertImpl P t w x (by omega)
+    rw [readItem_eq P t c x (not_stored_of_not_tvals t w.shape x (hab x (by simp)))]
+    have hnd' := (List.nodup_cons.mp hnd)
+    obtain ⟨a, b, c', d, e, f⟩ := ih (UTable.insertImpl P t x) w' hnd'.2
+      (by intro y hy; rw [htv, Finset.mem_insert]; rintro (h | h)
+          · rw [h] at hy; exact hnd'.1 hy
+          · exact hab y (by simp [hy]) h)
+      (by rw [size_congr hsd]; omega)
+    refine ⟨a, b, ?_, d.trans hsd, e.trans hk, f.trans hal⟩
+    rw [c', htv, List.toFinset_cons]
+    ext y; simp only [Finset.mem_union, Finset.mem_insert]; tauto
+
+theorem sdFor_ge_init (P : Params) (hP : PWF P) (ic : Nat) : P.initDeg ≤ sdFor .clamp P ic := by
+  unfold sdFor; have := hP.2; split <;> simp <;> omega
+
+/-- UmMarshall of the image of a well-formed, represented table gives a well-formed table representing the same set -/
+theorem tinv_unmarshal (P : Params) (hP : PWF P) (h2i : 2 ≤ P.initDeg) (rhs : Tb) (s2 : Sk) (U2 W : Finset ℕ) (h2 : TInv P rhs s2 U2 W) :
+    ∃ s, TInv P (UTable.unmarshal .clamp P (UTable.marshal rhs)) s U2 W := by
+  have ha2 : rhs.alloc = true := h2.ref.alloc ▸ h2.good.alloc
+  obtain ⟨mk, mic, mxs, mfin⟩ := tmarshal_xs rhs ha2
+  have htv2 := tinv_tvals P rhs s2 U2 W h2
+  have hnd2 := wf_nodup P rhs h2.wf
+  have hlim := tinv_limit P rhs s2 U2 W h2
+  obtain ⟨f1, f2, f3⟩ := sdFor_clamp P hP rhs.cnt hlim
+  have hcnt := tidy_cnt rhs (wf_tidy P rhs h2.wf)
+  -- the wire list: distinct values, as many as itemsCount
+  have hxsnd : (UTable.marshal rhs).xs.Nodup := by
+    rw [mxs]
+    cases hz : rhs.zero
+    · simpa using hnd2
+    · simp only [if_true, List.singleton_append]
+      exact List.nodup_cons.mpr ⟨zero_not_mem_items rhs, hnd2⟩
+  have hxslen : (UTable.marshal rhs).xs.length = rhs.cnt := by
+    rw [mxs, h2.wf.cnt]; cases hz : rhs.zero <;> simp <;> omega
+  let T0 : Tb := { alloc := true, buf := Array.replicate (2 ^ sdFor .clamp P rhs.cnt) 0, cnt := 0,
+                   sd := sdFor .clamp P rhs.cnt, k := rhs.k, zero := false }
+  have hget0 : ∀ i, UTable.get T0 i = 0 := by intro i; unfold UTable.get; simp [T0, Array.getD]
+  have hitems0 : items T0 = [] := by unfold items slots nz; simp [T0]
+  have htv0 : tvals T0 = ∅ := by unfold tvals; rw [hitems0]; simp [T0]
+  have w0 : WF P T0 :=
+    { shape := by unfold Shape slots UTable.size; simp [T0],
+      inj := by intro i j _ _ h; exact absurd (hget0 i) h,
+      reach := by intro i _ h; exact absurd (hget0 i) h,
+      cnt := by unfold CntOk; rw [hitems0]; simp [T0] }
+  have hpow : 2 ^ (sdFor .clamp P rhs.cnt - 1) + 1 ≤ 2 ^ sdFor .clamp P rhs.cnt := by
+    have e : sdFor .clamp P rhs.cnt = (sdFor .clamp P rhs.cnt - 1) + 1 := by omega
+    have : 1 ≤ 2 ^ (sdFor .clamp P rhs.cnt - 1) := Nat.one_le_two_pow
+    rw [e, Nat.pow_succ]; simp; omega
+  obtain ⟨e1, wf, tvf, sdf, kf, af⟩ := foldl_readItem P rhs.cnt (UTable.marshal rhs).xs T0 w0 hxsnd
+    (by intro x _; rw [htv0]; simp) (by rw [hitems0, hxslen]; show 0 + rhs.cnt + 1 ≤ 2 ^ sdFor .clamp P rhs.cnt; omega)
+  have hU : UTable.unmarshal .clamp P (UTable.marshal rhs) = setCnt ((UTable.marshal rhs).xs.foldl (UTable.insertImpl P) T0) rhs.cnt := by
+    unfold UTable.unmarshal; rw [mk, mic]; exact e1
+  rw [htv0, Finset.empty_union, mfin] at tvf
+  -- itemsCount of the rebuilt table is the number of its values
+  have hcf : ((UTable.marshal rhs).xs.foldl (UTable.insertImpl P) T0).cnt = rhs.cnt := by
+    rw [tidy_cnt _ (wf_tidy P _ wf), tvf, ← hcnt]
+  have hU' : UTable.unmarshal .clamp P (UTable.marshal rhs) = (UTable.marshal rhs).xs.foldl (UTable.insertImpl P) T0 := by
+    rw [hU]; unfold setCnt; rw [← hcf]
+  rw [hU']
+  have hbW : ∀ x ∈ (UTable.marshal rhs).xs, x < 2 ^ P.bits := by
+    intro x hx
+    have : x ∈ tvals rhs := by rw [← mfin]; exact List.mem_toFinset.mpr hx
+    exact h2.ref.bound x this
+  refine ⟨{ alloc := true, k := rhs.k, sd := sdFor .clamp P rhs.cnt, cnt := rhs.cnt,
+            items := (UTable.marshal rhs).xs.foldl (fun t x => t.insert P.bits x) .nil }, ?_⟩
+  have hkeys : keys P.bits ((UTable.marshal rhs).xs.foldl (fun t x => t.insert P.bits x) .nil) = tvals rhs := by
+    rw [keys_foldl_insert _ _ _ hbW, keys_nil, Finset.empty_union, mfin]
+  exact { wf := wf,
+          ref := { alloc := af.symm, k := kf.symm, sd := sdf.symm, cnt := hcf.symm, vals := by rw [tvf]; exact hkeys,
+                   bound := by rw [tvf]; exact h2.ref.bound },
+          good := { alloc := rfl, cnt := by show rhs.cnt = _; unfold abs; rw [hkeys]; exact hcnt,
+                    items := by unfold abs; show keys P.bits _ = fil rhs.k U2; rw [hkeys, htv2],
+                    sub := h2.good.sub, bound := h2.good.bound,
+                    minimal := by show ∀ j < rhs.k, _; rw [← h2.ref.k]; exact h2.good.minimal,
+                    sd1 := f1, sdmax := f2, fill := by show rhs.cnt ≤ 2 ^ (sdFor .clamp P rhs.cnt - 1); exact f3 },
+          sd2 := Nat.le_trans h2i (sdFor_ge_init P hP rhs.cnt) }
+
+
+/-! ### programs on the real table -/
+
+/-- the program of Part 3, executed on the concrete open-addressing table -/
+def trun (P : Params) : Prog → Tb
+  | .empty => nilTb
+  | .ins p x => UTable.insertHash .full P (UTable.ensure P (trun P p)) x
+  | .merge a b => UTable.merge .full P (trun P a) (trun P b)
+  | .mread a b => UTable.mergeRead .full .clamp P (trun P a) (UTable.marshal (trun P b))
+
+/-- the table is the zero value `ChUnique{}` (nothing seen), or well-formed and abstracted by a set-model state that
+    represents `U` canonically -/
+def TRep (P : Params) (t : Tb) (U W : Finset ℕ) : Prop :=
+  (t = nilTb ∧ U = ∅ ∧ ∀ x ∈ W, x < 2 ^ P.bits) ∨ ∃ s, TInv P t s U W
+
+theorem trep_mono (P : Params) (t : Tb) (U W W' : Finset ℕ) (h : TRep P t U W) (hs : W ⊆ W') (hb : ∀ x ∈ W', x < 2 ^ P.bits) :
+    TRep P t U W' := by
+  rcases h with ⟨a, b, _⟩ | ⟨s, h⟩
+  · exact Or.inl ⟨a, b, hb⟩
+  · exact Or.inr ⟨s, tinv_mono P t s U W W' h hs hb⟩
+
+theorem trep_bound (P : Params) (t : Tb) (U W : Finset ℕ) (h : TRep P t U W) : ∀ x ∈ W, x < 2 ^ P.bits := by
+  rcases h with ⟨_, _, c⟩ | ⟨s, h⟩
+  · exact c
+  · exact h.good.bound
+
+theorem trep_ensure (P : Params) (hP : PWF P) (h2 : 2 ≤ P.initDeg) (t : Tb) (U W : Finset ℕ) (h : TRep P t U W) :
+    ∃ s, TInv P (UTable.ensure P t) s U W := by
+  rcases h with ⟨a, b, c⟩ | ⟨s, h⟩
+  · subst a; subst b
+    exact ⟨_, tinv_reset P hP h2 W c⟩
+  · have ha : t.alloc = true := h.ref.alloc ▸ h.good.alloc
+    rw [ensure_alloc P t ha]; exact ⟨s, h⟩
+
+theorem merge_ensure (P : Params) (ch rhs : Tb) (ha : rhs.alloc = true) :
+    UTable.merge .full P ch rhs = UTable.merge .full P (UTable.ensure P ch) rhs := by
+  have e : UTable.ensure P (UTable.ensure P ch) = UTable.ensure P ch := by
+    unfold UTable.ensure; split
+    · rename_i h; simp [h]
+    · simp [UTable.reset]
+  unfold UTable.merge
+  have hna : ¬ ((!rhs.alloc) = true) := by simp [ha]
+  rw [if_neg hna, if_neg hna]
+  simp only [e]
+
+theorem trep_merge (P : Params) (hP : PWF P) (h2 : 2 ≤ P.initDeg) (ch rhs : Tb) (U1 U2 W : Finset ℕ)
+    (h1 : TRep P ch U1 W) (hr : TRep P rhs U2 W) : TRep P (UTable.merge .full P ch rhs) (U1 ∪ U2) W := by
+  rcases hr with ⟨a, b, _⟩ | ⟨s2, hr⟩
+  · subst a; subst b
+    have : UTable.merge .full P ch nilTb = ch := by unfold UTable.merge; simp [nilTb]
+    rw [this, Finset.union_empty]; exact h1
+  · have ha : rhs.alloc = true := hr.ref.alloc ▸ hr.good.alloc
+    obtain ⟨s1, h1'⟩ := trep_ensure P hP h2 ch U1 W h1
+    rw [merge_ensure P ch rhs ha]
+    exact Or.inr (tinv_merge P _ rhs s1 s2 U1 U2 W h1' hr)
+
+theorem trep_mread (P : Params) (hP : PWF P) (h2 : 2 ≤ P.initDeg) (ch rhs : Tb) (U1 U2 W : Finset ℕ)
+    (h1 : TRep P ch U1 W) (hr : TRep P rhs U2 W) :
+    TRep P (UTable.mergeRead .full .clamp P ch (UTable.marshal rhs)) (U1 ∪ U2) W := by
+  rcases hr with ⟨a, b, cW⟩ | ⟨s2, hr⟩
+  · subst a; subst b
+    rw [Finset.union_empty]
+    rcases h1 with ⟨a1, b1, _⟩ | ⟨s1, h1⟩
+    · subst a1; subst b1
+      have : UTable.mergeRead .full .clamp P nilTb (UTable.marshal nilTb) = UTable.reset P := by
+        simp [UTable.mergeRead, UTable.marshal, nilTb, UTable.unmarshal, sdFor, UTable.reset]
+      rw [this]; exact Or.inr ⟨_, tinv_reset P hP h2 W cW⟩
+    · have ha : ch.alloc = true := h1.ref.alloc ▸ h1.good.alloc
+      have : UTable.mergeRead .full .clamp P ch (UTable.marshal nilTb) = ch := by
+        simp [UTable.mergeRead, UTable.marshal, nilTb, ha]
+      rw [this]; exact Or.inr ⟨s1, h1⟩
+  · rcases h1 with ⟨a1, b1, _⟩ | ⟨s1, h1⟩
+    · subst a1; subst b1
+      rw [Finset.empty_union]
+      have : UTable.mergeRead .full .clamp P nilTb (UTable.marshal rhs) = UTable.unmarshal .clamp P (UTable.marshal rhs) := by
+        simp [UTable.mergeRead, nilTb]
+      rw [this]; exact Or.inr (tinv_unmarshal P hP h2 rhs s2 U2 W hr)
+    · exact Or.inr (tinv_mergeRead P hP ch rhs s1 s2 U1 U2 W h1 hr)
+
+/-- `table_refines`, every program: whatever the order and grouping of inserts, Merge calls and MarshallAppend + MergeRead
+    round trips, the concrete open-addressing table is the zero value or well-formed, and it is abstracted by a set-model
+    state that represents exactly the set of inserted hashes -/
+theorem table_refines_programs (P : Params) (hP : PWF P) (h2 : 2 ≤ P.initDeg) (p : Prog) (hb : ∀ x ∈ hashes p, x < 2 ^ P.bits) :
+    TRep P (trun P p) (hashes p) (hashes p) := by
+  induction p with
+  | empty => exact Or.inl ⟨rfl, rfl, hb⟩
+  | ins p x ih =>
+    simp only [hashes, trun] at hb ⊢
+    have ih' := ih (fun y hy => hb y (Finset.mem_insert_of_mem hy))
+    have r := trep_mono P _ _ _ (insert x (hashes p)) ih' (Finset.subset_insert _ _) hb
+    obtain ⟨s, hs⟩ := trep_ensure P hP h2 _ _ _ r
+    exact Or.inr ⟨_, tinv_step P _ s _ _ hs x (Finset.mem_insert_self _ _)⟩
+  | merge a b iha ihb =>
+    simp only [hashes, trun] at hb ⊢
+    have ra := trep_mono P _ _ _ (hashes a ∪ hashes b) (iha (fun y hy => hb y (Finset.mem_union_left _ hy))) Finset.subset_union_left hb
+    have rb := trep_mono P _ _ _ (hashes a ∪ hashes b) (ihb (fun y hy => hb y (Finset.mem_union_right _ hy))) Finset.subset_union_right hb
+    exact trep_merge P hP h2 _ _ _ _ _ ra rb
+  | mread a b iha ihb =>
+    simp only [hashes, trun] at hb ⊢
+    have ra := trep_mono P _ _ _ (hashes a ∪ hashes b) (iha (fun y hy => hb y (Finset.mem_union_left _ hy))) Finset.subset_union_left hb
+    have rb := trep_mono P _ _ _ (hashes a ∪ hashes b) (ihb (fun y hy => hb y (Finset.mem_union_right _ hy))) Finset.subset_union_right hb
+    exact trep_mread P hP h2 _ _ _ _ _ ra rb
+
+/-- from the table-level invariant to the set-level one of Part 3 -/
+theorem trep_rep (P : Params) (t : Tb) (U : Finset ℕ) (h : TRep P t U U) :
+    ∃ s, Rep P s U U ∧ s.k = t.k ∧ s.cnt = t.cnt ∧ tvals t = fil t.k U := by
+  rcases h with ⟨a, b, c⟩ | ⟨s, h⟩
+  · subst a; subst b
+    refine ⟨nilSk, Or.inr ⟨rfl, rfl, c⟩, rfl, rfl, ?_⟩
+    unfold tvals items slots; simp [nilTb, fil]
+  · exact ⟨s, Or.inl h.good, h.ref.k, h.ref.cnt, tinv_tvals P t s U U h⟩
+
+/-- C04 for the real data structure: after ANY program (inserts, Merge, MarshallAppend+MergeRead, any order and grouping)
+    the open-addressing table is well-formed (or still the zero value), holds exactly the inserted hashes divisible by
+    2^skipDegree, skipDegree is the least degree at which they fit, itemsCount is their number — and these agree with the
+    set model of Part 3 (`canonical_sketch`). -/
+theorem table_canonical (P : Params) (hP : PWF P) (h2 : 2 ≤ P.initDeg) (p : Prog) (hb : ∀ x ∈ hashes p, x < 2 ^ P.bits) :
+    (trun P p = nilTb ∨ WF P (trun P p)) ∧
+    tvals (trun P p) = fil (trun P p).k (hashes p) ∧
+    (fil (trun P p).k (hashes p)).card ≤ limit P ∧
+    (∀ j < (trun P p).k, limit P < (fil j (hashes p)).card) ∧
+    (trun P p).cnt = (fil (trun P p).k (hashes p)).card ∧
+    (trun P p).k = (run P p).k ∧ (trun P p).cnt = (run P p).cnt := by
+  have h := table_refines_programs P hP h2 p hb
+  obtain ⟨s, rs, ek, ec, etv⟩ := trep_rep P _ _ h
+  have hrun := canonical_sketch P hP p hb
+  obtain ⟨uk, uc⟩ := rep_unique P s (run P p) _ rs hrun
+  have hwf : trun P p = nilTb ∨ WF P (trun P p) := by
+    rcases h with ⟨a, _, _⟩ | ⟨s', h'⟩
+    · exact Or.inl a
+    · exact Or.inr h'.wf
+  have hcan : (fil s.k (hashes p)).card ≤ limit P ∧ (∀ j < s.k, limit P < (fil j (hashes p)).card) ∧ s.cnt = (fil s.k (hashes p)).card := by
+    rcases rs with g | ⟨a, b, _⟩
+    · exact good_canonical P s _ g
+    · subst a; rw [b]; simp [nilSk, fil]
+  rw [ek, ec] at hcan
+  exact ⟨hwf, etv, hcan.1, hcan.2.1, hcan.2.2, by rw [← ek, uk], by rw [← ec, uc]⟩
+
+/-- C04 at TABLE level: "Merging the same multiset of contributions in any order and any grouping yields the same …
+    unique-value estimate": two programs that insert the same set of hashes end with tables that hold the same values,
+    the same skipDegree and the same itemsCount (hence the same Size()), whatever their slot layouts. -/
+theorem table_order_independent (P : Params) (hP : PWF P) (h2 : 2 ≤ P.initDeg) (p q : Prog) (h : hashes p = hashes q)
+    (hb : ∀ x ∈ hashes p, x < 2 ^ P.bits) :
+    (trun P p).k = (trun P q).k ∧ (trun P p).cnt = (trun P q).cnt ∧ tvals (trun P p) = tvals (trun P q) := by
+  obtain ⟨_, tv1, _, _, _, k1, c1⟩ := table_canonical P hP h2 p hb
+  obtain ⟨_, tv2, _, _, _, k2, c2⟩ := table_canonical P hP h2 q (by rw [← h]; exact hb)
+  obtain ⟨ek, ec, _⟩ := estimate_order_independent P hP p q h hb
+  have hk : (trun P p).k = (trun P q).k := by rw [k1, k2, ek]
+  exact ⟨hk, by rw [c1, c2, ec], by rw [tv1, tv2, hk, h]⟩
+
+/-- non-vacuity: two programs over the same hashes with Merge and MergeRead on the toy table (4 → 8 → 16 slots, limit 8);
+    same skipDegree / itemsCount, both tables well-formed -/
+def tp1 : Prog := .merge (.ins (.ins (.ins (.ins (.ins .empty 28) 12) 4) 33) 7) (.ins (.ins (.ins (.ins .empty 52) 9) 61) 17)
+def tp2 : Prog := .ins (.mread (.ins (.ins (.ins .empty 17) 61) 9) (.merge (.ins (.ins .empty 52) 7) (.ins (.ins (.ins .empty 33) 4) 12))) 28
+set_option maxRecDepth 40000 in
+example : hashes tp1 = hashes tp2 ∧ (∀ x ∈ hashes tp1, x < 2 ^ toyT.bits) ∧
+    (trun toyT tp1).k = 1 ∧ (trun toyT tp1).cnt = 4 ∧ (trun toyT tp2).k = 1 ∧ (trun toyT tp2).cnt = 4 ∧
+    wfb toyT (trun toyT tp1) = true ∧ wfb toyT (trun toyT tp2) = true := by
+  refine ⟨by decide, by decide, by decide, by decide, by decide, by decide, by decide, by decide⟩
+
+
+open SH.Agg
+
+/-! ## Part 8 — the agent-side apply glue and API rows with unselected columns -/
+
+theorem addOnlyValue_set (t : Value) (v c : Int) (h : Host) : (addOnlyValue t v c h).set = true ∧ (addOnlyValue t v c h).cnt = t.cnt := by
+  simp [addOnlyValue, setMin, setMax]; split <;> split <;> rfl
+
+/-- invariant of the temporary item while values are added: counter untouched, sums are zero as long as nothing was added -/
+def TmpOk (c : Int) (t : Value) : Prop := t.cnt = c ∧ (t.set = false → t.sum = 0 ∧ t.sumsq = 0)
+
+theorem tmpOk_add (c : Int) (t : Value) (v cc : Int) (h : Host) (ht : TmpOk c t) : TmpOk c (addOnlyValue t v cc h) := by
+  obtain ⟨a, b⟩ := addOnlyValue_set t v cc h
+  exact ⟨b.trans ht.1, fun hs => by rw [a] at hs; cases hs⟩
+
+theorem tmpOk_fold1 (c : Int) (h : Host) : ∀ (vs : List Int) (t : Value), TmpOk c t → TmpOk c (vs.foldl (fun t v => addOnlyValue t v 4 h) t) := by
+  intro vs; induction vs with
+  | nil => intro t ht; exact ht
+  | cons v vs ih => intro t ht; exact ih _ (tmpOk_add c t v 4 h ht)
+
+theorem tmpOk_fold2 (c : Int) (h : Host) : ∀ (hs : List (Int × Int)) (t : Value), TmpOk c t →
+    TmpOk c (hs.foldl (fun t kv => addOnlyValue t kv.1 kv.2 h) t) := by
+  intro hs; induction hs with
+  | nil => intro t ht; exact ht
+  | cons kv hs ih => intro t ht; exact ih _ (tmpOk_add c t kv.1 kv.2 h ht)
+
+theorem scale_wf (c total : Int) (t2 : Value) (h2 : TmpOk c t2) (hc : 0 ≤ c) :
+    Wf (if c ≠ total then { t2 with sum := t2.sum * c / total, sumsq := t2.sumsq * c / total } else t2) := by
+  split
+  · refine ⟨by show t2.cnt ≥ 0; rw [h2.1]; exact hc, ?_⟩
+    intro hs
+    have := h2.2 hs
+    show t2.sum * c / total = 0 ∧ t2.sumsq * c / total = 0
+    rw [this.1, this.2]; simp
+  · exact ⟨by rw [h2.1]; exact hc, h2.2⟩
+
+/-- the item ApplyValues / ApplyValuesLegacy merge is a contribution in the sense of Part 1 -/
+theorem valuesItem_wf (values : List Int) (hist : List (Int × Int)) (c total : Int) (h : Host) (hc : 0 ≤ c) :
+    Wf (valuesItem values hist c total h) := by
+  have h0 : TmpOk c (simpleCounter c h) := ⟨by simp [simpleCounter, zero], fun _ => by simp [simpleCounter, zero]⟩
+  have h2 := tmpOk_fold2 c h hist _ (tmpOk_fold1 c h values _ h0)
+  exact scale_wf c total _ h2 hc
+
+/-- ApplyValues / ApplyValuesLegacy = ItemValue.Merge with ONE contribution (`valuesItem`), whatever the accumulator holds:
+    together with `add_eq_merge` and `applyUnique_eq` every stream of agent-side events is a merge tree of singleton
+    contributions, so Part 1 (`value_order_independent`, hosts) covers every order, incl. a counter before the first value -/
+theorem applyValues_eq (d : Nat) (s : Multi) (values : List Int) (hist : List (Int × Int)) (c total : Int) (h : Host) (ht : 0 < total) :
+    (applyValues d s values hist c total h).v = merge d s.v (valuesItem values hist c total h) ∧
+    (applyValues d s values hist c total h).u = s.u := by
+  unfold applyValues; rw [if_neg (by omega)]; exact ⟨rfl, rfl⟩
+
+/-- a counter-only contribution followed by a value event, and the other order: same count (6 events), as Part 1 demands -/
+example : (applyValues 0 { Multi.zero with v := addCounterHost 0 zero 20 1 } [3] [] 4 4 2).v.cnt = 24 ∧
+    (addCounterHost 0 (applyValues 0 Multi.zero [3] [] 4 4 2).v 20 1).cnt = 24 := by decide
+
+/-- the seeded change C04-r3-1 (assign the temporary when the accumulator has no values yet) as a model variant:
+    the counter-only contribution is discarded, the count depends on the order (1 instead of 6 events) -/
+def applyValuesAssign (d : Nat) (s : Multi) (values : List Int) (hist : List (Int × Int)) (c total : Int) (h : Host) : Multi :=
+  if total ≤ 0 then s
+  else if s.v.set then { s with v := merge d s.v (valuesItem values hist c total h) }
+  else { s with v := valuesItem values hist c total h }
+
+example : (applyValuesAssign 0 { Multi.zero with v := addCounterHost 0 zero 20 1 } [3] [] 4 4 2).v.cnt = 4 ∧
+    (addCounterHost 0 (applyValuesAssign 0 Multi.zero [3] [] 4 4 2).v 20 1).cnt = 24 := by decide
+
+/-! ### API rows when the query selects only some columns (the others are zero in every row) -/
+
+def TsTree.map (f : Ts → Ts) : TsTree → TsTree
+  | .leaf r => .leaf (f r)
+  | .node l r => .node (TsTree.map f l) (TsTree.map f r)
+
+theorem tsLeaves_map (f : Ts → Ts) (t : TsTree) : tsLeaves (t.map f) = (tsLeaves t).map f := by
+  induction t with
+  | leaf r => rfl
+  | node l r ihl ihr => simp [TsTree.map, tsLeaves, ihl, ihr]
+
+/-- a column selection: any function that zeroes the unselected columns of a row -/
+def selectCols (min max sum count sumsq card hosts : Bool) (r : Ts) : Ts :=
+  { r with min := if min then r.min else 0, max := if max then r.max else 0, sum := if sum then r.sum else 0,
+           count := if count then r.count else 0, sumsq := if sumsq then r.sumsq else 0, card := if card then r.card else 0,
+           minHost := if hosts then r.minHost else ⟨0, 0⟩, maxHost := if hosts then r.maxHost else ⟨0, 0⟩ }
+
+/-- C04, API rows, EVERY subset of selected columns: two merge trees over the same multiset of rows agree on all numeric
+    columns and host values, also when the rows carry zeros in the unselected columns (in particular when `count` is not
+    selected and is 0 in every row) -/
+theorem ts_selected_order_independent (mv : Unique.MergeV) (P : Unique.Params) (f : Ts → Ts) (t u : TsTree)
+    (hp : (tsLeaves t).Perm (tsLeaves u)) :
+    (tsEval mv P (t.map f)).sum = (tsEval mv P (u.map f)).sum ∧ (tsEval mv P (t.map f)).count = (tsEval mv P (u.map f)).count ∧
+    (tsEval mv P (t.map f)).sumsq = (tsEval mv P (u.map f)).sumsq ∧ (tsEval mv P (t.map f)).card = (tsEval mv P (u.map f)).card ∧
+    (tsEval mv P (t.map f)).min = (tsEval mv P (u.map f)).min ∧ (tsEval mv P (t.map f)).max = (tsEval mv P (u.map f)).max ∧
+    (tsEval mv P (t.map f)).minHost.val = (tsEval mv P (u.map f)).minHost.val ∧
+    (tsEval mv P (t.map f)).maxHost.val = (tsEval mv P (u.map f)).maxHost.val :=
+  ts_order_independent mv P _ _ (by rw [tsLeaves_map, tsLeaves_map]; exact hp.map f)
+
+/-- with `count` unselected the merged min/max are still the least/greatest over the rows -/
+theorem ts_min_without_count (mv : Unique.MergeV) (P : Unique.Params) (t : TsTree) :
+    Extremal (· ≤ ·) (·.min) (tsLeaves (t.map (selectCols true true false false false false false)))
+      (tsEval mv P (t.map (selectCols true true false false false false false))).min := ts_min mv P _
+
+/-- the seeded change C04-r3-2 (min/max merged only when rhs.count ≠ 0) as a model variant -/
+def tsMergeGuard (mv : Unique.MergeV) (P : Unique.Params) (v r : Ts) : Ts :=
+  { tsMerge mv P v r with
+    min := if r.count ≠ 0 then (if v.count = 0 ∨ r.min < v.min then r.min else v.min) else v.min,
+    max := if r.count ≠ 0 then (if v.count = 0 ∨ v.max < r.max then r.max else v.max) else v.max }
+
+def rowMin (m : Int) : Ts :=
+  { min := m, max := m, sum := 0, count := 0, sumsq := 0, card := 0, mergeCount := 0, minHost := ⟨0, 0⟩, maxHost := ⟨0, 0⟩,
+    minHostStr := ⟨0, 0⟩, maxHostStr := ⟨0, 0⟩, u := Unique.nilSk }
+
+/-- … for a query that selects min/max but not count (count = 0 in every row) the guarded merge depends on the order; the code's
+    merge does not -/
+example : (tsMergeGuard .chGood Unique.real (rowMin 5) (rowMin 2)).min = 5 ∧ (tsMergeGuard .chGood Unique.real (rowMin 2) (rowMin 5)).min = 2 ∧
+    (tsMerge .chGood Unique.real (rowMin 5) (rowMin 2)).min = 2 ∧ (tsMerge .chGood Unique.real (rowMin 2) (rowMin 5)).min = 2 := by decide
 
 
 end SH.C04
